@@ -84,6 +84,7 @@ func parseCheckArgs(args []string) checkOpts {
 // packagesFor finds the repository packages whose contract files mention the property id.
 func packagesFor(repo, id string) ([]string, error) {
 	var pats []string
+	mentioned := false
 	err := filepath.Walk(repo, func(path string, info os.FileInfo, err error) error {
 		if err != nil {
 			return nil
@@ -93,14 +94,18 @@ func packagesFor(repo, id string) ([]string, error) {
 		}
 		if info.Name() == "verif_contracts.go" {
 			b, _ := os.ReadFile(path)
+			rel, _ := filepath.Rel(repo, filepath.Dir(path))
+			pats = append(pats, "./"+rel)
 			if regexp.MustCompile(`\b` + id + `\b`).Match(b) {
-				rel, _ := filepath.Rel(repo, filepath.Dir(path))
-				pats = append(pats, "./"+rel)
+				mentioned = true
 			}
 		}
 		return nil
 	})
 	sort.Strings(pats)
+	if !mentioned {
+		return nil, err
+	}
 	return pats, err
 }
 
